@@ -533,37 +533,20 @@ func (pr *ProtoArray) inSubtree(anchorIndex NodeIndex, lookupIndex NodeIndex) (u
 	if anchorIndex == lookupIndex {
 		return false, true
 	}
-	anchorNode, err := pr.getNode(anchorIndex)
-	if err != nil {
+	if _, err := pr.getNode(anchorIndex); err != nil {
 		return true, false
 	}
-	lookupNode, err := pr.getNode(lookupIndex)
-	if err != nil {
-		return true, false
-	}
-	if anchorNode.Ref.Slot >= lookupNode.Ref.Slot {
-		// anchor is later on the same chain than the looked up node.
-		// So anchor may be in subtree of the looked up node, but not vice versa.
-		return false, false
-	}
-	if anchorIndex >= lookupIndex {
-		// anchor was inserted after looked up node.
-		// So anchor may be in subtree of the looked up node, but not vice versa.
-		return false, false
-	}
-	// shortcut: if they have the same relative head, they are on the same chain.
-	if anchorNode.BestDescendant == lookupIndex || anchorNode.BestDescendant == lookupNode.BestDescendant {
-		return false, true
-	}
-	// Root may still be on a different non-canonical branch out of the anchor.
-	for i := lookupNode.TransitionParent; i != NONE && i >= anchorIndex; {
-		tmp := &pr.nodes[i]
-		// early exit: as soon as we find a node that has the same relative head as the anchor,
-		// we know we are in-between the anchor and the head, thus in the subtree, thus an ancestor.
-		if tmp.BestDescendant == anchorNode.BestDescendant {
+	// Walk back the transition parents of the looked up node: parents always have a lower index than
+	// their children, so the walk can stop as soon as it gets below the anchor.
+	for i := lookupIndex; i != NONE && i >= anchorIndex; {
+		if i == anchorIndex {
 			return false, true
 		}
-		i = tmp.TransitionParent
+		node, err := pr.getNode(i)
+		if err != nil {
+			return true, false
+		}
+		i = node.TransitionParent
 	}
 	return false, false
 }
